@@ -20,6 +20,7 @@ func VerifC18Pent2x2Half() { verifC18Body(5, 7, 7, 2, verifHalf, 0) }
 func VerifC18Hex2x2Half()  { verifC18Body(6, 7, 7, 2, verifHalf, 0) }
 func VerifC04Pent2x2Half() { verifC04Body(5, 7, 7, 2, verifHalf, 0) }
 func VerifC01Pent2x2Half() { verifC01Body(5, 7, 7, 2, verifHalf, 0) }
+
 func VerifC05Pent2x2Half() { verifC05Body([]int{5}, 7, 7, 2, verifHalf, 0) }
 
 // valid rings in a window of 2x1 pixels (4x2 pixels of the finer tile matrix), both tile matrices requested
